@@ -259,6 +259,13 @@ class CellExec:
                 for v in list(ev.env[st.iter.id].items):
                     ev.env[st.target.id] = v
                     self._block(st.body)
+            elif isinstance(st, ast.Assign) and len(st.targets) == 1 and isinstance(st.targets[0], ast.Subscript) \
+                    and isinstance(st.targets[0].value, ast.Name) and st.targets[0].value.id in ev.env \
+                    and isinstance(st.targets[0].slice, (ast.Compare, ast.BoolOp, ast.UnaryOp)):
+                # masked store  X[<test on X>] = V : in a cell X stands for one element, so X := V where the test holds
+                name = st.targets[0].value.id
+                if ev.test(st.targets[0].slice):
+                    ev.env[name] = ev.eval(st.value)
             elif isinstance(st, ast.Assign) and len(st.targets) == 1:
                 tg = st.targets[0]
                 if isinstance(tg, ast.Name):
